@@ -192,6 +192,14 @@ class PartProcessor(PartHandler, Maintainable):
 
     def _shutdown(self, is_failure, lost_part):
         if self._is_shut_down:
+            if is_failure:
+                # Failed while already shut down: paused events (e.g. the
+                # processing timer of the lost Part) must not resume and
+                # the lost Part still has to be reported.
+                self._env.cancel_matching_events(asset_id = self.id)
+                if lost_part != None:
+                    for c in self._shutdown_callbacks:
+                        c(self, is_failure, lost_part)
             return
         self._is_shut_down = True
         if is_failure:
